@@ -504,7 +504,6 @@ func runC16(c *eng.Ctx) {
 	guardedBy(r7, pkgVault, "GroupedVault", "collectors", "mtx")
 }
 
-
 // actionMembership decides the atom slices.Contains(L, op.Action) for the assumed action a: L is a constant list
 // (literal, local, package variable that is never written), or a local whose value at the node of the test - under
 // the same scenario - is one of several such lists that agree on a. ok is false when the atom is something else or
